@@ -1,5 +1,7 @@
 import TruthModel.Props.C16Instr
 import TruthModel.Props.C16Files
+import TruthModel.Props.C16Anm
+import TruthModel.Props.C16AnmAmpl
 /-
 C16 — any binary input ends in success or a diagnostic, never a crash.
 
@@ -9,4 +11,7 @@ C16 — any binary input ends in success or a diagnostic, never a crash.
   files (`*_read_no_panic`, `*_read_total`, `*_read_alloc_bound`), including the formerly panicking
   input of the old ECL reader (`ecl_read_formerly_panicking_input`, repaired by 8c247ce) and the
   amplification of the STD / ECL offset tables (`std_alloc_amplification`, open).
+* `Props/C16Anm.lean`: the ANM container (`anm_read_panic_only_counter`, `anm_read_no_panic_partial`, `anm_read_total`,
+  `anm_entry_chain_terminates`, `anm_entry_loop_check_dead`, `anm_read_alloc_bound_partial`, the amplification witnesses);
+  `Props/C16AnmAmpl.lean`: `anm_shared_texture_reads`, `anm_read_alloc_bound_full_false`.
 -/
